@@ -125,6 +125,15 @@ class EnumerateIter(Iter):
             return STOP
         n = self.n; self.n += 1
         return Tup([n, x])
+    def next_back(self, I):
+        # Enumerate is double-ended over an exact-size iterator: the index of the last item is front count + remaining - 1
+        k = iter_size(self.inner)
+        if k is None:
+            raise Unsupported('next_back on an enumerate of unknown length')
+        x = iter_next_back(I, self.inner)
+        if x is STOP:
+            return STOP
+        return Tup([self.n + k - 1, x])
     def size(self): return iter_size(self.inner)
 
 class RevIter(Iter):
